@@ -58,7 +58,9 @@ def e2e_case(rng):
                     n = rng.choice(cand)
                     g.nodes[n].update(element='S', cap=2, hcount=2 - g.degree(n))
             else:
-                g = M.gen_molecule(rng, max_heavy=rng.choice([1, 1, 2, 3, 4, 6]), p_arom=0.0, p_ring=0.2, charged=False)
+                # a third of the units carry formally charged atoms ([N+], [O-]) whose charges need not cancel: the charge
+                # of the BASE node is what was written there (or the default 0), whatever its atoms add up to
+                g = M.gen_molecule(rng, max_heavy=rng.choice([1, 1, 2, 3, 4, 6]), p_arom=0.0, p_ring=0.2, charged=rng.random() < 0.33)
             slots = [n for n in g for _ in range(g.nodes[n]['hcount'])]
             if len(slots) >= 2:
                 break
